@@ -50,9 +50,9 @@ def audit_axioms(pid, theorems, imports):
     rc, out = run(["lake", "env", "lean", path], cwd=LEAN, timeout=1800)
     res = {}
     # "'name' depends on axioms: [a, b]"  |  "'name' does not depend on any axioms"
-    for m in re.finditer(r"'([^']+)' depends on axioms: \[([^\]]*)\]", out, re.S):
+    for m in re.finditer(r"'(\S+)' depends on axioms: \[([^\]]*)\]", out, re.S):
         res[m.group(1)] = [a.strip() for a in m.group(2).replace("\n", " ").split(",") if a.strip()]
-    for m in re.finditer(r"'([^']+)' does not depend on any axioms", out):
+    for m in re.finditer(r"'(\S+)' does not depend on any axioms", out):
         res[m.group(1)] = []
     return rc, res, out
 
